@@ -291,7 +291,7 @@ def _pass_separation(ctx, rep, cl, v4, v6):
         ok = names.index("word") > max(names.index("ip4"), names.index("ip6"))
         rep.ob(cl + ".pass-order-words", "anonymize_io", ok, "sensitive-word stage runs after both address passes (a word occurring inside an address spelling would otherwise corrupt the address before it is recognised): %s" % names,
                where(ctx.p.find_function("FileAnonymizer.anonymize_io")), key=cl + ".pass-order|word-after-ip")
-    if "as" in names and "ip4" in names:
+    if "as" in names and "ip4" in names and "ip6" in names:
         ok = names.index("as") > max(names.index("ip4"), names.index("ip6"))
         rep.ob(cl + ".pass-order-as", "anonymize_io", ok, "AS-number stage runs after both address passes (it rewrites digit runs): %s" % names, where(ctx.p.find_function("FileAnonymizer.anonymize_io")), key=cl + ".pass-order|as-after-ip")
 
@@ -381,8 +381,9 @@ def c06(ctx, rep):
     independent_wiring(ctx, rep, "C06", only=("anonymizer4", "anonymizer6"))
     # "every address is replaced": the only tokens left alone are the ones the gate names (masks, listed networks), decided exactly;
     # the image printed is the function's image (host bits per family as given); the text written is the processed text, never a copy of the input
-    from .checks_ip import _gate_content, c04 as _c04
+    from .checks_ip import _gate_content, _stage_families, c04 as _c04
     _gate_content(ctx, IpModel(ctx), rep, "C06")
+    _stage_families(ctx, IpModel(ctx), rep, "C06")
     from .checks_pipe import import_clauses, c16 as _c16
     import_clauses(ctx, rep, "C06", "C04", _c04, ("C04.suffix-default", "C04.suffix-field"))
     import_clauses(ctx, rep, "C06", "C16", _c16, ("C16.single-file-streams", "C16.writes-only-output"))
